@@ -207,6 +207,47 @@ def check_order(repo, chk):
         chk.violation("G-order", bad[0].key, "pair-order", bad[1] + ": sorted particle lists are then not sorted by name, and the name-based topology identity (identical particles) compares lists in different orders", file=PART, line=bad[0].lineno)
 
 
+def check_names(repo, chk):
+    """BaseParticle.set_name: the (name, id) pair a particle is known by"""
+    chk.rule("G-name", "BaseParticle.set_name interpreted on plain names, `name:id` names and names whose part after the last colon is not a number (the canonical intermediate states `(K, pi:1)` that standard_topology builds from identical particles): the particle is known by (prefix, id) when the last part is an integer, by (whole name, 0) otherwise, and by (name, id_) when the id is given - two different names never collapse to one particle")
+    pc = repo.cls(PART + "::BaseParticle")
+    fn = pc.lookup("set_name")
+    if fn is None:
+        raise AnalysisError("anchor vanished: BaseParticle.set_name")
+    from ..sym import SelfObj as _SO
+    names = ["pi", "pi:1", "pi:12", "R_BC", "(K, pi:1)", "(K, pi:2)", "(K:1, pi)", "a:b:3", "a:b", "x:", "(B:1, (C, D:2))"]
+    bad = None
+    seen = {}
+    for nm in names:
+        for id_ in (None, 3):
+            so = _SO(pc, {})
+            tr = Translator(repo, hooks={"allow_attr_store": True, "allow_raise": True}, max_depth=2)
+            try:
+                tr.call_fn(fn, [nm] if id_ is None else [nm, id_], {}, self_obj=so)
+            except Unmodelled as ex:
+                raise AnalysisError("BaseParticle.set_name cannot be interpreted on %r: %s" % (nm, ex))
+            except Raised as ex:
+                if bad is None:
+                    bad = "set_name(%r) raises %s" % (nm, ex)
+                continue
+            got = (so.attrs.get("_name"), so.attrs.get("_id"))
+            got = (got[0], int(got[1]) if got[1] is not None and not isinstance(got[1], str) else got[1])
+            if id_ is not None:
+                want = (nm, id_)
+            else:
+                head, _, tail = nm.rpartition(":")
+                want = (head, int(tail)) if head and tail.lstrip("+-").isdigit() else (nm, 0)
+            if got != want and bad is None:
+                bad = "set_name(%r%s) leaves the particle known as %r, expected %r" % (nm, "" if id_ is None else ", id_=%d" % id_, got, want)
+            if id_ is None:
+                if got in seen and seen[got] != nm and bad is None:
+                    bad = "the names %r and %r both become the particle %r" % (seen[got], nm, got)
+                seen.setdefault(got, nm)
+    chk.oblige("G-name", "set_name on %d names, with and without an explicit id" % len(names), bad is None)
+    if bad:
+        chk.violation("G-name", fn.key, "name-id", bad + ": canonical intermediate states of different groupings become one particle, so the canonical table no longer determines the chain (and data keyed by these particles are shared between groupings)", file=PART, line=fn.lineno)
+
+
 def check_graph(repo, chk):
     chk.rule("G-step", "_Chain_Graph.add_node(e, d) replaces the edge e = (a, b) by (a, v), (v, b), (v, d) with a fresh inner node v and touches no other edge (|edges| + 2)")
     chk.rule("G-copy", "_Chain_Graph.copy() is independent of the original: add_node on the copy leaves the original unchanged")
@@ -455,7 +496,7 @@ def check_same(repo, chk, worlds):
 
 
 def check_classes(repo, chk, finals, chains, objs, tr):
-    chk.rule("G-class", "DecayGroup.topology_structure / get_chains_map: every chain of a group lies in exactly one topology class (groups of 1..8 chains, duplicated topologies with renamed intermediates)")
+    chk.rule("G-class", "DecayGroup.topology_structure / get_chains_map: every chain of a group lies in exactly one topology class (groups of 1..8 chains, duplicated topologies with renamed intermediates); with an explicit selection (one chain, a part, every second one, none) exactly the selected chains are assigned")
     gc = repo.cls(PART + "::DecayGroup")
     tsf, gcm = gc.methods["topology_structure"], gc.methods["get_chains_map"]
     ref = [str(groupings(ds, finals)) for ds in chains]
@@ -488,6 +529,24 @@ def check_classes(repo, chk, finals, chains, objs, tr):
                 if hits != [want.index(ref[i])]:
                     why = "the chain %s is assigned to the classes %s, expected exactly class %d" % (chains[i], hits, want.index(ref[i]))
                     break
+        if why is None and "chains" in gcm.all_param_names():
+            # an explicit selection - a part of the group, one chain, none: exactly the selected chains are assigned
+            for sel in ([idxs[0]], idxs[1:], idxs[::2], []):
+                for as_kw in (False, True):
+                    picked = tuple(objs[i] for i in sel)
+                    try:
+                        maps = tr.call_fn(gcm, [] if as_kw else [picked], {"chains": picked} if as_kw else {}, self_obj=grp)
+                    except Unmodelled as ex:
+                        raise AnalysisError("DecayGroup.get_chains_map(selection) cannot be interpreted: %s" % ex)
+                    except Raised as ex:
+                        why = "get_chains_map(%s) raises %s" % ([chains[i] for i in sel], ex)
+                        break
+                    assigned = [i for i in idxs for m_ in (maps if isinstance(maps, list) else []) if objs[i] in m_]
+                    if not isinstance(maps, list) or sorted(assigned) != sorted(set(sel)):
+                        why = "get_chains_map with the selection %s of the group %s assigns the chains %s (selected: %d, assigned: %d): a chain outside the selection enters a topology class, or a selected one is left out" % ([chains[i] for i in sel], [chains[i] for i in idxs], [chains[i] for i in assigned], len(sel), len(assigned))
+                        break
+                if why:
+                    break
         if why and bad is None:
             bad = why
     if bad:
@@ -500,6 +559,7 @@ def run(repo, chk, tier="quick"):
 
     check_memo_soundness(repo, chk)
     check_order(repo, chk)
+    check_names(repo, chk)
     check_graph(repo, chk)
     worlds = check_enum(repo, chk, tier)
     if 4 not in worlds:
